@@ -751,3 +751,27 @@ def drop_last(ex, st, s, k):
     kk = ex.term(k, 'I')
     keep = z3.If(n - kk < 0, 0, n - kk)
     return SV(z3.SubString(t, 0, keep), STR)
+
+
+@specfunc('class_name_of')
+def class_name_of(ex, st, obj):
+    """type(obj).__name__ for the registered classes (the class table of the heap maps addresses to class ids)"""
+    cid = ex.H(st, 'cls')[ex.term(obj, 'R')]
+    t = z3.StringVal('?')
+    for n, i in sorted(ex.world.class_ids.items(), key=lambda kv: kv[1]):
+        t = z3.If(cid == i, z3.StringVal(n), t)
+    return SV(t, STR)
+
+
+@specfunc('refval_is')
+def refval_is(ex, st, v, r):
+    """a dynamically typed field holds exactly the reference r"""
+    t = ex.term(v, 'V')
+    return SV(z3.And(Val.is_VRef(t), Val.addr(t) == ex.term(r, 'R')), BOOL)
+
+
+@specfunc('is_varies_class')
+def is_varies_class(ex, st, obj):
+    cid = ex.H(st, 'cls')[ex.term(obj, 'R')]
+    ids = [i for n, i in ex.world.class_ids.items() if n in ('Field', 'Component', 'SubComponent', 'CanBeVaries')]
+    return SV(z3.Or(*[cid == i for i in ids]) if ids else z3.BoolVal(False), BOOL)
